@@ -23,6 +23,9 @@ from allmydata.util import base32, fileutil                               # noqa
 from allmydata.crypto import rsa                                          # noqa: E402
 import allmydata.util.cputhreadpool as ctp                                # noqa: E402
 
+from sim import dethash                                                   # noqa: E402
+dethash.install()
+
 _POOL = None
 
 
